@@ -660,7 +660,7 @@ theorem body_cnt (hrec : RecC E own node rn rank rec) (k : Nat) (e : Expr) (s : 
       simp only [Outcome.Sat] at h2 ⊢
       obtain ⟨m, g⟩ := quiet s' a b c
       refine ⟨m, fun hok => ?_, d, g⟩
-      obtain ⟨x, y⟩ := h2 hok
+      obtain ⟨x, y⟩ := h2.2 hok
       exact ⟨x, fun heq => by simp [Expr.nul, y heq]⟩
   | action id blk e1 =>
     simp only [Expr.Ok] at he
